@@ -18,6 +18,7 @@ CLAIMED = {
  'C09': ('model_checking', 'Doc.tla (ExpandBody) via Gen.tla/Obs.tla', FLOW + 'C09: Doc!ExpandBody is TeX substitution for a catalogue of 8 definition shapes (0-2 parameters, optional default, argument used twice / never, nested call, \\def, \\renewcommand, use before definition, single-token argument); every document whose definitions lead the text is run three times (definitions in the document, via --defs, via a file read by \\LTinput) and Obs.tla judges each against the same expectation shifted by the constant offset.', '6/C09', 'definition shapes are a finite catalogue; as C02'),
  'C10': ('model_checking', 'Maths.tla/Doc.tla via Gen.tla/Obs.tla (C10Walk)', FLOW + 'C10: for every inline formula (bodies over letters, operators, fractions, sub-scripts, unknown maths macros, braces, maths space, punctuation; in text, arguments, items, footnotes, headings; languages en/de/ru) the characters mapping into the formula are exactly one placeholder of the inline collection of the language plus its closing punctuation mark, with a blank where the formula starts/ends with maths space, and successive formulas carry cyclically successive placeholders.', '6/C10', 'as C02; language switches inside a document belong to C12'),
  'C11': ('model_checking', 'Maths.tla (RefEq) via Gen.tla/Obs.tla (C11Walk)', FLOW + 'C11: Maths!RefEq is the documented rewriting scheme (rows x sections x parts, operator words, text parts copied with exact positions, punctuation kept, rotation points) with placeholders numbered relative to the rotation state; Obs.tla matches the text of every displayed equation (align, equation, \\[ \\], $$ $$; en/de/ru; simple mode on/off) piece by piece against it.', '6/C11', 'as C02; equations with a row that renders nothing are excluded (that is a blank line for the line-removal pass)'),
+ 'C12': ('model_checking', 'Doc.tla (language stack, insertions) via Gen.tla/ObsML.tla', 'Doc.tla labels every copied character with the language in force (babel option and \\selectlanguage replace the top of a stack, \\foreignlanguage and the otherlanguage environments push for their extent, nesting, footnotes) and records every insertion (span, number of words); Gen.tla (TLC) enumerates documents with these commands; the real tex2txt runs each in multi-language mode (main language in {en-GB, de-DE, none}, threshold 0..5) and in single-language mode; ObsML.tla demands: every word character in exactly one part with its exact position and the right label; a short single-language insertion inside a sentence = one language-change placeholder in the same part, a longer one ends the part; the parts together hold exactly what the single-language run holds.', '6/C12', 'placeholder clause only for insertions with text of the surrounding language on both sides; \\selectlanguage inside footnotes not generated'),
  'C13': ('model_checking', 'Replace.tla, GenRepl.tla, ObsRepl.tla', 'Replace.tla is the statement as a left-to-right machine (rule parsing, phrase matching with word boundaries and separators without blank line, position bookkeeping); GenRepl.tla (TLC) enumerates texts x position-list patterns (also non-monotonic) x 12 rule lists and checks the clauses of the statement on the specification itself; the real utils.replace_phrases (and tex2txt with repl, single- and multi-language) runs every case; ObsRepl.tla demands equality with the specification.', '6/C13', 'regular-expression semantics modelled only for the patterns replace_phrases builds'),
  'C19': ('model_checking', 'Doc.tla (unk) via Gen.tla/Obs.tla (C19)', FLOW + 'C19: the reference records undeclared names in order of first use (unknown macros and environments, the listed-but-unknown \\xfoo, user macros used before their definition), not those in maths, comments, skipped regions; the output of the real filter with unkn (two package selections) must be exactly that list, one per line.', '6/C19', 'package selections limited to the fixed set and *; as C02'),
  'C20': ('model_checking', 'Checks.tla, GenChk.tla, ObsChk.tla', 'Checks.tla defines declaratively the isolated letters not covered by an accepted pattern, the offending equation placeholders and the context excerpt; GenChk.tla (TLC) enumerates plain texts over the alphabet of the statement and checks the definitions; the real yalafi.shell.checks functions run on each text with 8 accept lists x 6 modes; ObsChk.tla compares the messages (offset, length, context) with the definitions.', '6/C20', 'regular-expression semantics (\\b, \\w, \\s, alternation order) modelled for the patterns checks.py builds; a missing equation message is DRIFT, not a violation'),
